@@ -221,7 +221,7 @@ def detach_all() -> None:
 # ---------------------------------------------------------------------------------------
 # watchdog
 # ---------------------------------------------------------------------------------------
-class CaseTimeout(Exception):
+class CaseTimeout(BaseException):  # BaseException: monitors' generic `except Exception` must not swallow it
     pass
 
 
